@@ -108,6 +108,67 @@ def in_child(fn, timeout):
         raise ChildKilled()
     return pickle.loads(b''.join(chunks))
 
+def run_crashsafe(driver, scn, timeout=600):
+    """Run one scenario in a forked child.  If the child is terminated by a signal (a crash inside the C engine is the
+    realistic cause) the result is a violation of class <prop>/engine-crash/signal-N: deterministic, not a matter of
+    wall-clock time.  A child that has to be killed for not returning is reported as a HANG discard."""
+    import pickle, select, signal
+    rfd, wfd = os.pipe()
+    pid = os.fork()
+    if pid == 0:
+        try:
+            os.close(rfd)
+            signal.alarm(0)
+            try:
+                data = pickle.dumps(driver.run(scn))
+            except BaseException:
+                r = new_result()
+                r['harness_exception'] = traceback.format_exc()
+                data = pickle.dumps(r)
+            while data:
+                n = os.write(wfd, data)
+                data = data[n:]
+        finally:
+            os._exit(0)
+    os.close(wfd)
+    chunks = []
+    deadline = time.time() + timeout
+    killed = False
+    while True:
+        left = deadline - time.time()
+        rl = select.select([rfd], [], [], left)[0] if left > 0 else []
+        if not rl:
+            killed = True
+            break
+        b = os.read(rfd, 1 << 20)
+        if not b:
+            break
+        chunks.append(b)
+    os.close(rfd)
+    if killed:
+        try:
+            os.kill(pid, signal.SIGKILL)
+        except OSError:
+            pass
+    _, status = os.waitpid(pid, 0)
+    if killed:
+        r = new_result()
+        r['discard'] = 'HANG: the scenario did not return and its process was killed'
+        return r
+    if os.WIFSIGNALED(status):
+        sig = os.WTERMSIG(status)
+        try:
+            name = signal.Signals(sig).name
+        except ValueError:
+            name = str(sig)
+        r = new_result()
+        return fail(r, '%s/engine-crash/%s' % (driver.PROP, name), 'the process executing the scenario was terminated by %s (a crash inside the simulator core or a tool)' % name)
+    if not chunks:
+        r = new_result()
+        r['harness_exception'] = 'child exited without a result'
+        return r
+    return pickle.loads(b''.join(chunks))
+
 def bump(res, key, n=1):
     res['stats'][key] = res['stats'].get(key, 0) + n
 
@@ -245,7 +306,10 @@ def replay(prop, path):
     driver = load_driver(prop)
     with open(path) as f:
         scn = json.load(f)
-    res = run_guarded(driver, scn, 600)
+    res = run_crashsafe(driver, scn, 600)
+    if res.get('harness_exception'):
+        print('HARNESS-ERROR property=%s replay raised:\n%s' % (prop, res['harness_exception']))
+        return 2
     print('replay %s: ok=%s class=%s discard=%s' % (path, res['ok'], res['vclass'], res['discard']))
     if res['detail']:
         print(res['detail'])
@@ -318,7 +382,9 @@ def main(prop, tier, base_seed, jobs=None, runs=None, budget_s=None, digest_out=
             c = next(it, None)
             if c is None:
                 return False
-            pending[ex.submit(_chunk, (prop, tier, base_seed, c))] = c
+            fut = ex.submit(_chunk, (prop, tier, base_seed, c))
+            fut._verif_first = c[0]
+            pending[fut] = c
             return True
         for _ in range(jobs * 2):
             if not submit_next():
@@ -331,9 +397,31 @@ def main(prop, tier, base_seed, jobs=None, runs=None, budget_s=None, digest_out=
                     break
                 continue
             for fut in done:
-                pending.pop(fut)
+                c_done = pending.pop(fut)
                 try:
                     agg = fut.result()
+                except concurrent.futures.process.BrokenProcessPool:
+                    # a worker was killed by a signal: find the scenario that does it, one scenario per child process
+                    suspects = [c_done] + [c for c in pending.values()]
+                    crash = None
+                    for c in suspects:
+                        for i in c:
+                            seed_i = prng.derive(base_seed, prop, i)
+                            scn = driver.gen(prng.random.Random(seed_i), tier, i)
+                            scn['seed'], scn['index'], scn['property'] = seed_i, i, prop
+                            r = run_crashsafe(driver, scn, 300)
+                            if not r['ok'] and '/engine-crash/' in (r['vclass'] or ''):
+                                crash = (i, scn, r['vclass'], r['detail'])
+                                break
+                        if crash:
+                            break
+                    if crash:
+                        total['violations'].append(crash)
+                        total['crash'] = True
+                        pending.clear()
+                    else:
+                        error = 'worker died and no single scenario reproduces it:\n' + traceback.format_exc()
+                    break
                 except Exception:
                     error = 'worker died:\n' + traceback.format_exc()
                     break
@@ -355,9 +443,9 @@ def main(prop, tier, base_seed, jobs=None, runs=None, budget_s=None, digest_out=
                 break
         skipped_chunks = sum(1 for _ in it)
     finally:
-        if error:
+        if error or total.get('crash'):
             _kill_pool(ex)
-        ex.shutdown(wait=not error, cancel_futures=True)
+        ex.shutdown(wait=not (error or total.get('crash')), cancel_futures=True)
     if error:
         print('HARNESS-ERROR property=%s %s' % (prop, error))
         return 2
@@ -401,10 +489,13 @@ def main(prop, tier, base_seed, jobs=None, runs=None, budget_s=None, digest_out=
         if vclass in seen_classes or len(reported) >= 3:
             continue
         seen_classes.add(vclass)
-        small = shrink(driver, scn, vclass)
-        res = run_guarded(driver, small, 600)
-        if res['ok']:
-            small, res = scn, run_guarded(driver, scn, 600)
+        if '/engine-crash/' in vclass:
+            small, res = scn, {'ok': False, 'detail': detail}       # never re-run a crashing scenario in this process
+        else:
+            small = shrink(driver, scn, vclass)
+            res = run_guarded(driver, small, 600)
+            if res['ok']:
+                small, res = scn, run_guarded(driver, scn, 600)
         path = write_replay(prop, small, vclass, res['detail'] or detail)
         ok, out = verify_replay_fresh(prop, path, vclass)
         if not ok:
